@@ -141,7 +141,7 @@ def stale_ack_after_wrap(run):
     sends a message with a callback in the datagram whose wire number equals the replayed header's ack field; the next
     replay makes A report success for a message B never received."""
     rng = run.rng
-    net = netsim.Net(run, rng, {"loss": 0, "dup": 0, "reorder": 0, "tick": 512}, mtu=1500)
+    net = netsim.Net(run, rng, {"loss": 0, "dup": 0, "reorder": 0, "tick": 525}, mtu=1500)      # ticks are multiples of 15 (exact binary fractions of a second); 525 > the 512-tick send interval
     net.A.snap = net.B.snap = False
     try:
         for i in range(3):
@@ -156,7 +156,7 @@ def stale_ack_after_wrap(run):
         k = 0
         while len(net.emitted["client"]) < 65535 + ack - 1 and k < 70000:
             k += 1
-            net.advance(512)
+            net.advance(525)
             net.send("client", 9, 0, with_cb=False)
             if k % 100 == 0:
                 net.replay("client", rec_idx)
@@ -168,11 +168,11 @@ def stale_ack_after_wrap(run):
         if net.A.impl.conn.status.value != 2 or len(net.emitted["client"]) != 65535 + ack - 1:
             raise RuntimeError("stale-ack scenario: the sender did not stay connected through the wrap (%s, %d datagrams)"
                                % (net.A.impl.conn.status, len(net.emitted["client"])))
-        net.advance(512)
+        net.advance(525)
         mid = net.send("client", 12, 0, with_cb=True)
         net.tick("client")
         hdr = net.emitted["client"][-1]["hdr"]
-        net.advance(512)
+        net.advance(525)
         net.replay("client", rec_idx)
         net.pump("client")
         calls = [(t, ok) for (t, cbid, ok) in net.callbacks["client"] if cbid == mid]
@@ -190,6 +190,31 @@ def stale_ack_after_wrap(run):
                         ["agree" if not diffs else "differ"])
     finally:
         net.close()
+
+
+def directed_d17(run):
+    """known finding D17 re-observed on every run by one directed history (harness/d17.py)"""
+    from harness import d17
+    for who in ("client", "server"):
+        net, mid = d17.directed(run, who)
+        try:
+            rec = net.sent[who][mid]
+            peer = net.other(who)
+            got = [t for (t, p) in net.delivered[peer] if p == rec["payload"]]
+            calls = [(t, ok) for (t, cbid, ok) in net.callbacks[who] if cbid == mid]
+            diffs = net.check_models()
+            run.compare("conn_run", [{"session": "directed-D17-" + who, "first_difference": diffs[:1]}], ["agree"],
+                        ["agree" if not diffs else "differ"])
+            run.evaluations += len(net.emitted["client"]) + len(net.emitted["server"])
+            for (t, ok) in calls:
+                if ok and (not got or min(got) > t):
+                    run.oracle_violation("success-reported-but-peer-never-got-the-message",
+                                         {"session": "directed-D17", "who": who, "len": rec["len"], "retry": rec["retry"], "calls": calls,
+                                          "fragmented": True, "delivered_at": got}, "callbacks")
+            if len(calls) > 1:
+                run.oracle_violation("callback-fired-more-than-once", {"session": "directed-D17", "who": who, "calls": calls}, "callbacks")
+        finally:
+            net.close()
 
 
 def net_due_callbacks_possible(net, who):
@@ -222,4 +247,5 @@ def run(run):
             run.sample({"session": label, "cfg": cfg, "callbacks": {w: net.callbacks[w][:6] for w in net.callbacks}})
     run.compare("conn_run", cases, impl, mod)
     stale_ack_after_wrap(run)
+    directed_d17(run)
     run.rules.append(RULE)
